@@ -61,16 +61,16 @@ type schedFS struct {
 	vfs.FS
 	// stepNow returns the index of the plan step the foreground is executing;
 	// fg is the goroutine id of the foreground (never held).
-	stepNow func() int64
-	trace   func(format string, args ...interface{})
-	holds   atomic.Int64
-	holding atomic.Int64 // goroutines currently parked in a hold
+	stepNow     func() int64
+	trace       func(format string, args ...interface{})
+	holds       atomic.Int64
+	holding     atomic.Int64 // goroutines currently parked in a hold
 	createHolds atomic.Int64
-	ops     atomic.Int64 // completed mutating operations (all goroutines)
-	sp      *SchedPlan
-	n   atomic.Int64
-	cnt atomic.Int64 // pauses taken
-	on  atomic.Bool
+	ops         atomic.Int64 // completed mutating operations (all goroutines)
+	sp          *SchedPlan
+	n           atomic.Int64
+	cnt         atomic.Int64 // pauses taken
+	on          atomic.Bool
 }
 
 func newSchedFS(inner vfs.FS, sp *SchedPlan) *schedFS {
